@@ -383,11 +383,35 @@ def _e2e_body(case, ctx):
     ctx.note(nontrivial=float(np.max(np.abs(lag_tot))) > 0, labels=[case["grid"], case["dtype"], "reset" if case["reset"] else "accumulate"])
 
 
+def _scan_variants(tier):
+    # the replicate index only spreads the work over more worker processes (it enters the derived seed)
+    return [[k, r] for k in ("rod_surface_3d", "rod_surface_caps_3d") for r in range(4)]
+
+
+def _scan_strategy(tier, var):
+    kind = var[0]
+
+    """many short rods on the surface grids (pure Python, milliseconds per case): per-element marker counts of tapered / capped rods
+    form many different patterns, including ones whose TOTAL coincides with that of a uniform rod."""
+    @st.composite
+    def case(draw):
+        c = draw(grid_strategy(kind, tier))
+        c["rod"] = dict(c["rod"], n_elems=draw(st.integers(2, 8)), taper=draw(st.sampled_from(["slight", "slight", "linear", "random"])),
+                        taper_ratio=draw(gen.floats(1.02, 2.0, 32)))
+        c["density"] = draw(st.integers(3, 16))
+        c["earlier"] = []
+        return c
+
+    return case()
+
+
 PARTS = [
     Part(name="transfer_balance", strategy=lambda tier, kind: grid_strategy(kind, tier), body=_body, variants=_variants,
          examples={"quick": 1100, "thorough": 22000}, shards={"quick": 11, "thorough": 11}),
     Part(name="end_to_end", strategy=_e2e_strategy, body=_e2e_body, variants=_e2e_variants,
          examples={"quick": 120, "thorough": 2400}, shards={"quick": 12, "thorough": 12}),
+    Part(name="surface_grid_marker_count_scan", strategy=_scan_strategy, body=_body, variants=_scan_variants,
+         examples={"quick": 4000, "thorough": 60000}, shards={"quick": 8, "thorough": 16}),
 ]
 
 # the same generator and oracle driven by libFuzzer with branch coverage of the forcing-grid classes as feedback
